@@ -74,7 +74,7 @@ func (x *Exec) callStatic(bc *blockCtx, in ssa.Instruction, f *ssa.Function, bin
 		// wrapper / bound method without body: not built
 		panic(unsupported("synthetic function without body: " + name))
 	}
-	if len(f.Blocks) > 0 && !x.onStack(f) && bc.fr.depth < x.maxInline {
+	if len(f.Blocks) > 0 && !x.onStack(f) && bc.fr.depth < x.maxInline && x.inlinable(f) {
 		return x.inlineCall(bc, in, f, binds, args)
 	}
 	// unknown callee: havoc result and all heaps
@@ -249,6 +249,7 @@ func (x *Exec) applyContract(bc *blockCtx, in ssa.Instruction, f *ssa.Function, 
 			x.havocAllOnCall = true
 		} else {
 			for _, k := range strings.Fields(strings.ReplaceAll(fc.Assigns, ",", " ")) {
+				x.registerGhost(k)
 				hk := x.resolveHeapName(ce, k)
 				bc.st.heaps[hk] = x.b.Fresh(hk+"_after_"+shortFn(name), x.heapSorts[hk])
 			}
@@ -323,9 +324,7 @@ func (x *Exec) invoke(bc *blockCtx, in ssa.Instruction, recv *Val, m *types.Func
 			// deterministic result, but declared effects on ghost / heap state
 			pre = bc.st.clone()
 			for _, k := range strings.Fields(strings.ReplaceAll(mc.Assigns, ",", " ")) {
-				if k == "G_calls" {
-					x.heapSorts["G_calls"] = "(Array Int Int)"
-				}
+				x.registerGhost(k)
 				hk := x.resolveHeapName(&CEnv{x: x, st: bc.st, pkg: x.prog.pkgOfFile(mc.File)}, k)
 				bc.st.heaps[hk] = x.b.Fresh(hk+"_after_"+shortFn(key), x.heapSorts[hk])
 			}
@@ -868,4 +867,43 @@ func (x *Exec) devirt(recv *Val, name string) (*ssa.Function, *Val) {
 		}
 	}
 	return f, rv
+}
+
+// inlinable: only functions of the repository itself (and a few tiny helper
+// packages) are executed in place; everything else needs a contract.
+func (x *Exec) inlinable(f *ssa.Function) bool {
+	pkg := fnPkg(f)
+	if pkg == nil {
+		return true // synthetic wrappers, instantiations without package
+	}
+	path := pkg.Pkg.Path()
+	if strings.HasPrefix(path, strings.TrimSuffix(modPrefix, "/")) {
+		return true
+	}
+	switch path {
+	case "github.com/unixpickle/essentials":
+		switch f.Name() {
+		case "MinInt", "MaxInt", "AbsInt", "Round":
+			return true
+		}
+	case "sort":
+		return false
+	}
+	return false
+}
+
+// registerGhost declares ghost state: G_calls is the per-function-value call
+// counter, every other G_<name> is an integer ghost variable.
+func (x *Exec) registerGhost(k string) {
+	if !strings.HasPrefix(k, "G_") {
+		return
+	}
+	if _, ok := x.heapSorts[k]; ok {
+		return
+	}
+	if k == "G_calls" {
+		x.heapSorts[k] = "(Array Int Int)"
+	} else {
+		x.heapSorts[k] = "Int"
+	}
 }
